@@ -1,6 +1,32 @@
-(** Entry points for C01 (stub: replaced by the property's own entry file). *)
-From Coq Require Import ZArith List.
-From GV Require Import Base.Val.
+(** Entry points for C01 / C06 (k-mer search and signatures). *)
+From Coq Require Import ZArith List Bool.
+From GV Require Import Base.Val Base.CSem Spec.Kmers Spec.C01 Model.C01 Entry.Codec.
+Import ListNotations.
 Open Scope Z_scope.
 
-Definition dispatch (op : Z) (a : val) : val := vbad.
+Definition vmatch (m : kmatch) : val := VL [VI (fst m); vbool (snd m)].
+Definition to_seqs (v : val) : list (list Z) := map to_Zs (to_list v).
+
+Definition dispatch (op : Z) (a : val) : val :=
+  match op with
+  (* 1: find_kmers (k p s) -> matches in yield order *)
+  | 1 => match a with
+         | VL [VI k; p; s] => vres (vlist vmatch) (find_kmers k (to_Zs p) (to_Zs s))
+         | _ => vbad end
+  (* 2: calc_signature (dense k p seqs) -> (sig itemsize?) *)
+  | 2 => match a with
+         | VL [VI d; VI k; p; seqs] =>
+             vres (fun r => VL [vZs (fst r); vopt VI (snd r)])
+                  (calc_signature (negb (d =? 0)) k (to_Zs p) (to_seqs seqs))
+         | _ => vbad end
+  (* 3: specification (k p seqs) -> sorted unique k-mer indices *)
+  | 3 => match a with
+         | VL [VI k; p; seqs] => vZs (signature_spec (Z.to_nat k) (to_Zs p) (to_seqs seqs))
+         | _ => vbad end
+  | 4 => match a with VI k => vopt VI (dtype_spec (Z.to_nat k)) | _ => vbad end
+  (* 5: spec occurrences on one strand (k p s) -> list of kmer indices in position order *)
+  | 5 => match a with
+         | VL [VI k; p; s] => vZs (fwd_kmers (Z.to_nat k) (to_Zs p) (to_Zs s))
+         | _ => vbad end
+  | _ => vbad
+  end.
